@@ -242,7 +242,9 @@ func runFramingStream(id *int, idmu *sync.Mutex, s FStream, seed int64, exhausti
 		tw.EmitAll(evs)
 	}
 	r := newRng(seed, len(wire), s.Limit, len(s.Frames))
-	spares := []int{0, 1, 3, 64}
+	// capacities of the buffer handed in: none, tiny, and those of recycled buffers (a pooled buffer that earlier, larger
+	// messages have grown)
+	spares := []int{0, 1, 3, 64, 1024, 1376, 4096}
 	if len(wire) <= exhaustiveMax {
 		compositions(len(wire), func(c []int) {
 			sched := append([]int{}, c...)
@@ -305,6 +307,12 @@ func bigStreams() []FStream {
 		p := varint(v)
 		out = append(out, FStream{Codec: "proto", Limit: 64, Frames: []FFrame{{Pre: p, Body: []int{}}}, Cut: len(p)})
 		out = append(out, FStream{Codec: "proto", Limit: 64, Frames: []FFrame{{Pre: p, Body: []int{1, 2, 3}}}, Cut: len(p) + 3})
+	}
+	// messages larger than the buffer they arrive in (a recycled buffer has to grow by more than a quarter, by more than
+	// double, ...), not completely buffered when the call starts
+	for _, pair := range [][2]int{{1100, 2000}, {600, 1500}, {2048, 5200}, {1025, 1300}} {
+		fr := []FFrame{{Pre: varint(uint64(pair[0])), Body: body(pair[0])}, {Pre: varint(uint64(pair[1])), Body: body(pair[1])}}
+		out = append(out, FStream{Codec: "proto", Limit: 8192, Frames: fr, Cut: len(fr[0].Pre) + pair[0] + len(fr[1].Pre) + pair[1]})
 	}
 	// non-minimal encodings of small sizes, 2..10 bytes
 	for k := 2; k <= 10; k++ {
